@@ -66,7 +66,7 @@ type GlobalSpecs struct {
 }
 
 var clauseKw = map[string]bool{"func": true, "arith": true, "trusted": true, "pure": true, "requires": true, "ensures": true, "modifies": true, "loop": true,
-	"invariant": true, "callsite": true, "lemma": true, "axiom": true, "inline": true, "panics": true, "option": true, "unroll": true, "callers": true, "stores": true}
+	"invariant": true, "callsite": true, "lemma": true, "axiom": true, "inline": true, "panics": true, "option": true, "unroll": true, "callers": true, "stores": true, "spec": true}
 
 var nameRe = regexp.MustCompile(`^([A-Za-z_][A-Za-z0-9_\-]*):\s+(.*)$`)
 
@@ -176,6 +176,13 @@ func (w *World) readContractFile(path string) error {
 			cur = &FnContract{Key: key, Loops: map[int]*LoopContract{}, Options: map[string]string{}, File: path, Line: l.line}
 			w.Contracts[key] = cur
 			curLoop = nil
+			continue
+		case "spec":
+			// spec uf NAME(p T, ...) R        uninterpreted function
+			// spec def NAME(p T, ...) R = e   defined (macro) function
+			if err := w.parseSpec(l, path); err != nil {
+				return err
+			}
 			continue
 		case "lemma", "axiom":
 			c, err := mk(l, true)
@@ -314,4 +321,55 @@ func splitTopComma(s string) []string {
 	}
 	out = append(out, strings.TrimSpace(s[start:]))
 	return out
+}
+
+type SpecDef struct {
+	Name   string
+	Params []QVar
+	Result string
+	Body   Expr
+	Text   string
+	File   string
+}
+
+var specHeadRe = regexp.MustCompile(`^(uf|def)\s+([A-Za-z_][A-Za-z0-9_]*)\s*\(([^)]*)\)\s*([^=]*?)\s*(?:=\s*(.*))?$`)
+
+func (w *World) parseSpec(l rawLine, path string) error {
+	m := specHeadRe.FindStringSubmatch(strings.TrimSpace(l.rest))
+	if m == nil {
+		return fmt.Errorf("line %d: bad spec declaration: %s", l.line, l.rest)
+	}
+	var ps []QVar
+	if strings.TrimSpace(m[3]) != "" {
+		for _, p := range splitTopComma(m[3]) {
+			f := strings.Fields(p)
+			if len(f) != 2 {
+				return fmt.Errorf("line %d: bad parameter %q", l.line, p)
+			}
+			ps = append(ps, QVar{f[0], f[1]})
+		}
+	}
+	if w.SpecUFs == nil {
+		w.SpecUFs = map[string]*SpecUF{}
+	}
+	if w.SpecDefs == nil {
+		w.SpecDefs = map[string]*SpecDef{}
+	}
+	if m[1] == "uf" {
+		uf := &SpecUF{Name: m[2], Result: strings.TrimSpace(m[4])}
+		for _, p := range ps {
+			uf.Params = append(uf.Params, p.Type)
+		}
+		w.SpecUFs[m[2]] = uf
+		return nil
+	}
+	if m[5] == "" {
+		return fmt.Errorf("line %d: spec def needs '= expr'", l.line)
+	}
+	e, err := ParseExpr(m[5])
+	if err != nil {
+		return fmt.Errorf("line %d: %v", l.line, err)
+	}
+	w.SpecDefs[m[2]] = &SpecDef{Name: m[2], Params: ps, Result: strings.TrimSpace(m[4]), Body: e, Text: m[5], File: path}
+	return nil
 }
